@@ -8,4 +8,5 @@ MCPCompute(d, id, size, L, W) == AbstractPShard(d, id, size, L, W)
 MCPInitDescs == {NoPDesc} \cup
     {[parts |-> [p \in Part |-> [state |-> f[p][1], sts |-> f[p][2], tok |-> 0]], owners |-> <<>>] :
         f \in [Part -> PStates \X PStamps]}
+MCPNarrowInitDescs == {NoPDesc, [parts |-> [p \in Part |-> [state |-> "ACTIVE", sts |-> 2, tok |-> 0]], owners |-> <<>>]}
 =============================================================================
